@@ -20,6 +20,8 @@ class Script:
         self.marks = []  # stdout length at each call, to recover which question was being asked
 
     def __call__(self, *a):
+        if a and a[0] and self.out is not None:
+            self.out.write(a[0])          # like input(prompt)
         self.marks.append(self.out.tell() if self.out is not None else 0)
         if self.used >= len(self.answers):
             self.used += 1
@@ -29,6 +31,13 @@ class Script:
         return x
 
     out = None
+
+    def readline(self, *a):
+        """as sys.stdin, for code that calls input() / sys.stdin.readline() directly"""
+        try:
+            return self() + "\n"
+        except EOFError:
+            return ""
 
 
 # numerically equal spellings of the version argument (the docstring documents "2 or 3.0/3.1 or 4")
@@ -42,8 +51,11 @@ def ask(iver, all_metrics, answers, no_colors=True, spelling=0):
     sc = Script(answers)
     buf = io.StringIO()
     sc.out = buf
-    old = inter.string_input
-    inter.string_input = sc
+    old = getattr(inter, "string_input", None)
+    old_stdin = sys.stdin
+    if old is not None:
+        inter.string_input = sc
+    sys.stdin = sc
     res = {"outcome": None, "vector": None}
     try:
         with contextlib.redirect_stdout(buf):
@@ -56,7 +68,9 @@ def ask(iver, all_metrics, answers, no_colors=True, spelling=0):
             except Exception as e:  # noqa
                 res["outcome"] = "raised:%s" % type(e).__name__
     finally:
-        inter.string_input = old
+        sys.stdin = old_stdin
+        if old is not None:
+            inter.string_input = old
     text = buf.getvalue()
     res["stdout"] = text
     res["consumed"] = min(sc.used, len(answers))
@@ -82,8 +96,10 @@ def run_main(argv, stdin_lines):
     sc = Script(stdin_lines)
     out, err = io.StringIO(), io.StringIO()
     sc.out = out
-    old_in, old_argv = inter.string_input, sys.argv
-    inter.string_input = sc
+    old_in, old_argv, old_stdin = getattr(inter, "string_input", None), sys.argv, sys.stdin
+    if old_in is not None:
+        inter.string_input = sc
+    sys.stdin = sc
     sys.argv = ["cvss_calculator"] + list(argv)
     res = {"exit": 0, "raised": None}
     try:
@@ -96,8 +112,10 @@ def run_main(argv, stdin_lines):
                 res["raised"] = "%s: %s" % (type(e).__name__, e)
                 res["exit"] = 1
     finally:
-        inter.string_input = old_in
+        if old_in is not None:
+            inter.string_input = old_in
         sys.argv = old_argv
+        sys.stdin = old_stdin
     res["stdout"] = out.getvalue()
     res["stderr"] = err.getvalue()
     res["consumed"] = min(sc.used, len(stdin_lines))
